@@ -1967,10 +1967,14 @@ class Mode2Mon(mon.Monitor):
                 break
             return e
         c = through_let(n["cond"])
+        xid = self.hc.pid[2]
         for z in tast.find(c, lambda z: z.get("k") == "Binary" and z["op"] in ("Gt", "Ge", "Le", "Lt", "Ne", "Eq")):
             l, r = z["l"], z["r"]
-            if tast.contains(l, lambda q: q.get("k") == "MethodCall" and q.get("name") == "abs") and tast.contains(l, lambda q: q.get("k") == "Path" and q.get("id") == self.hc.pid[2]):
+            if tast.contains(l, lambda q: q.get("k") == "MethodCall" and q.get("name") == "abs") and tast.contains(l, lambda q: q.get("k") == "Path" and q.get("id") == xid):
                 out.append((z, r))
+            elif z["op"] in ("Eq", "Ne") and (l.get("ty") or "") in ("f64", "&f64") and (tast.contains(l, lambda q: q.get("k") == "Path" and q.get("id") == xid)
+                                                                                        or tast.contains(r, lambda q: q.get("k") == "Path" and q.get("id") == xid)):
+                out.append((z, None))       # last == *x : an exact duplicate
         return out
 
     def is_dup_guard(self, n):
@@ -2003,6 +2007,11 @@ def r_mode2_record(rep, hc):
                     and (tast.contains(src, lambda q: q.get("k") == "MethodCall" and q.get("name") == "last" and tast.contains(q["recv"], lambda w: hc.field_is(w, "t")))
                          or tast.contains(z["l"], lambda q: q.get("k") == "MethodCall" and q.get("name") == "last")):
                 dups.append(z)
+    if not dups:
+        exact = [z for z in tast.find(m1e, lambda z: z.get("k") == "Binary" and z["op"] in ("Eq", "Ne") and (z["l"].get("ty") or "") in ("f64", "&f64")
+                                      and (tast.contains(z, lambda q: q.get("k") == "Path" and q.get("id") == hc.pid[2])))] if m1e is not None else []
+        if exact:
+            rep.ok("R-MODE2-RECORD", "R-MODE2-RECORD:%s:dup-slack" % hc.fn, "only a repeated time (`%s`) is treated as a duplicate" % tast.render(exact[0])[:60])
     seen_ids = set()
     for z in dups:
         if id(z) in seen_ids:
@@ -2010,14 +2019,12 @@ def r_mode2_record(rep, hc):
         seen_ids.add(id(z))
         key = "R-MODE2-RECORD:%s:dup-slack" % hc.fn
         thr = z["r"]
-        relative = tast.contains(thr, lambda q: q.get("k") == "Path" and (q.get("def") or "").endswith("::EPSILON")) and \
-            tast.contains(thr, lambda q: q.get("k") == "MethodCall" and q.get("name") == "abs")
         zero = thr.get("k") == "Lit" and float(str(thr.get("v", "1")).replace("_", "")) == 0.0
-        if relative or zero:
-            rep.ok("R-MODE2-RECORD", key, "the duplicate test `%s` swallows only points within rounding of the last sample" % tast.render(z)[:80])
+        if zero:
+            rep.ok("R-MODE2-RECORD", key, "the duplicate test `%s` swallows only a repeated time" % tast.render(z)[:80])
         else:
-            rep.violation("R-MODE2-RECORD", key, "the accepted step's end point is skipped when `%s` fails: the threshold `%s` is an absolute slack, so every step shorter than it is dropped from the record "
-                          "(on an interval no longer than the slack the result is t = [x0] with Success; with tiny first steps fewer intervals are reported than steps accepted)"
+            rep.violation("R-MODE2-RECORD", key, "the accepted step's end point is skipped when `%s` fails: the threshold `%s` is a slack, so every accepted step shorter than it is dropped from the record "
+                          "(on an interval no longer than an absolute slack the result is t = [x0] with Success; with steps of a few ulps fewer intervals are reported than naccpt)"
                           % (tast.render(z)[:70], tast.render(thr)[:30]), sp(z))
     if not m.violations:
         rep.ok("R-MODE2-RECORD", "R-MODE2-RECORD:%s" % hc.fn, "every solver-selected-output callback records x (or skips it only as a duplicate"
